@@ -965,6 +965,7 @@ OPS: Dict[str, Tuple[str, Callable]] = {
     "add new metabolite": ("R1.add_metabolites({c_c: 1.5})", lambda w, m, h: h["R1"].add_metabolites({h["mets"]["c_c"]: 1.5})),
     "cancel metabolite": ("R1.add_metabolites({b_c: -1})", lambda w, m, h: h["R1"].add_metabolites({h["mets"]["b_c"]: -1.0})),
     "replace coefficients": ("R1.add_metabolites({b_c: 4, c_c: 2}, combine=False)", lambda w, m, h: h["R1"].add_metabolites({h["mets"]["b_c"]: 4.0, h["mets"]["c_c"]: 2.0}, combine=False)),
+    "replace by a twin object": ("R1.add_metabolites({<another Metabolite object with id b_c>: 4}, combine=False)", lambda w, m, h: h["R1"].add_metabolites({w.new("Metabolite", "b_c", compartment="c"): 4.0}, combine=False)),
     "metabolite by id": ("R2.add_metabolites({'a_c': 0.5})", lambda w, m, h: h["R2"].add_metabolites({"a_c": 0.5})),
     "existing metabolite by id": ("R1.add_metabolites({'b_c': 2})", lambda w, m, h: h["R1"].add_metabolites({"b_c": 2.0})),
     "subtract": ("R2.subtract_metabolites({c_c: 2})", lambda w, m, h: h["R2"].subtract_metabolites({h["mets"]["c_c"]: 2.0})),
@@ -1229,6 +1230,7 @@ def _effects():
     E.append(("R1.add_metabolites({c_c: 1.5})", None, OPS["add new metabolite"][1], {M + "c_c._reaction": _cs(R + "R1", R + "R2"), R + "R1._metabolites": _cd(**{M + "a_c": -1.0, M + "b_c": 1.0, M + "c_c": 1.5})}, (), None))
     E.append(("R1.add_metabolites({b_c: -1})", None, OPS["cancel metabolite"][1], {M + "b_c._reaction": _cs(R + "R2"), R + "R1._metabolites": _cd(**{M + "a_c": -1.0})}, (), None))
     E.append(("R1.add_metabolites({b_c: 4, c_c: 2}, combine=False)", None, OPS["replace coefficients"][1], {M + "c_c._reaction": _cs(R + "R1", R + "R2"), R + "R1._metabolites": _cd(**{M + "a_c": -1.0, M + "b_c": 4.0, M + "c_c": 2.0})}, (), None))
+    E.append(("R1.add_metabolites({<another Metabolite object with id b_c>: 4}, combine=False)", None, OPS["replace by a twin object"][1], {R + "R1._metabolites": _cd(**{M + "a_c": -1.0, M + "b_c": 4.0})}, (), None))
     E.append(("R2.add_metabolites({'a_c': 0.5})", None, OPS["metabolite by id"][1], {M + "a_c._reaction": _cs(R + "R1", R + "R2", R + "TR"), R + "R2._metabolites": _cd(**{M + "a_c": 0.5, M + "b_c": -1.0, M + "c_c": 2.0})}, (), None))
     E.append(("R1.add_metabolites({'b_c': 2})", None, OPS["existing metabolite by id"][1], {R + "R1._metabolites": _cd(**{M + "a_c": -1.0, M + "b_c": 3.0})}, (), None))
     E.append(("R2.subtract_metabolites({c_c: 2})", None, OPS["subtract"][1], {M + "c_c._reaction": _cs(), R + "R2._metabolites": _cd(**{M + "b_c": -1.0})}, (), None))
